@@ -411,11 +411,28 @@ class Result:
         return 1 if self.violations else 0
 
 
+def coqchk(pid, timeout=3000):
+    """thorough tier: re-check the compiled property file and everything it depends on with the
+    independent checker and read back the axioms it reports"""
+    with Lock("coq"):
+        p = sh("timeout %d coqchk -silent -o -Q theories Astria Astria.Properties.%s 2>&1" % (timeout, pid), cwd=COQ)
+    out = p.stdout.decode(errors="replace")
+    ax = re.search(r"\* Axioms:\s*(.*?)(?:\n\s*\n|\n\* |\Z)", out, re.S)
+    axioms = ax.group(1).strip() if ax else ""
+    return {"ok": p.returncode == 0, "axioms": re.sub(r"\s+", " ", axioms)[:2000], "tail": out[-1500:]}
+
+
 def proof_coverage(res, pid, extra_tb=(), open_statements=()):
     """Run the proof side for `pid`; fill coverage keys; on failure register a violation
     (caller may later replace it by one with a concrete input)."""
     pr = check_property_file(pid)
     n = len(pr["theorems"])
+    if pr["ok"] and res.tier == "thorough" and os.environ.get("VERIF_NO_COQCHK") != "1":
+        ck = coqchk(pid)
+        res.coverage["coqchk"] = {"ok": ck["ok"], "axioms": ck["axioms"] or "<none>"}
+        if not ck["ok"]:
+            pr["ok"] = False
+            pr["error"] = "coqchk failed: " + ck["tail"]
     res.coverage.update({
         "obligations": n,
         "discharged": n if pr["ok"] else 0,
